@@ -172,10 +172,11 @@ def full_pool(ck, soups=None, mutants=None, rendered=False):
     return cat(files, ck.wd("pool.ndjson"))
 
 
-def judge(ck, module, trace, name=None, timeout=3600, chunk=None):
+def judge(ck, module, trace, name=None, timeout=3600, chunk=None, start_marker=None):
     """Judge a recorded trace with a Trace_* module in TLC. `chunk` (a number of records): judges whose
     verdict on a record does not depend on other records may be given the trace in pieces (TLC reads a
-    trace file into memory whole); reject indices are mapped back to the whole file."""
+    trace file into memory whole); reject indices are mapped back to the whole file. `start_marker`: a piece may
+    only begin at a record containing this text (for judges that read groups of records)."""
     nm = name or (ck.prop + "_" + module)
     if chunk:
         n = sum(1 for _ in open(trace))
@@ -186,15 +187,15 @@ def judge(ck, module, trace, name=None, timeout=3600, chunk=None):
             pieces = []
             with open(trace) as src:
                 for line in src:
+                    if f is not None and k >= chunk and (start_marker is None or start_marker in line[:40]):
+                        f.close()
+                        f, part, off, k = None, part + 1, off + k, 0
                     if f is None:
                         pp = "%s.part%d" % (trace, part)
                         f = open(pp, "w")
                         pieces.append((pp, off))
                     f.write(line)
                     k += 1
-                    if k == chunk:
-                        f.close()
-                        f, part, off, k = None, part + 1, off + k, 0
             if f:
                 f.close()
             from concurrent.futures import ThreadPoolExecutor
